@@ -93,5 +93,5 @@ theorem binary_to_rgb565_witness : ∃ x ∈ resolvedTable, x.a.name = "BinaryCo
         .fillContiguous ⟨⟨1, 1⟩, ⟨2, 1⟩⟩ [0xFFFF, 0] := by decide +kernel
   exact this x (List.mem_of_find?_eq_some hx)
 
--- [V] that the real `ColorConverted` calls exactly `.into()` on each colour (Rust-level: `colors.into_iter().map(|c| c.into())`, `color.into()`) and that the `From` impls between built-in types are the bodies C13 models (C13's tie: regenerated table, `conv.pairs`, correspondence stream): carried by correspondence + oracle only
+-- [V] that the `From` impls between built-in types are the bodies C13 models (C13's tie: regenerated table, `conv.pairs`, correspondence stream): carried by correspondence + oracle only. (closed: that the real `ColorConverted` calls exactly `.into()` once on each colour - `colors.into_iter().map(|c| c.into())`, `color.into()` - is `ColorConverted_*_src_eq_model` of EG/Props/C03/GeneratedAdapters.lean, over the bodies regenerated from color_converted.rs)
 end EG.C03.Conversions
